@@ -67,6 +67,15 @@ m("c16-slotnumber-receivedstations-swapped", S + "radio_status.rs", "Ok((data, S
 m("c16-itdma-increment-12", S + "radio_status.rs", "let (data, slot_increment) = take_bits(13u16)(data)?;\n        let (data, num_slots) = take_bits(3u8)(data)?;", "let (data, slot_increment) = take_bits(12u16)(data)?;\n        let (data, num_slots) = take_bits(4u8)(data)?;", ["C16"])
 m("c16-type3-sotdma", S + "radio_status.rs", "1 | 2 | 4 | 11 | 9 => SotdmaMessage::parse(input),\n        3 => ItdmaMessage::parse(input),", "1 | 2 | 4 | 11 | 9 | 3 => SotdmaMessage::parse(input),", ["C16"])
 m("c16-type18-selector-swapped", S + "standard_class_b_position_report.rs", "0 => SotdmaMessage::parse(data)?,\n            1 => ItdmaMessage::parse(data)?,", "1 => SotdmaMessage::parse(data)?,\n            0 => ItdmaMessage::parse(data)?,", ["C16"])
+# ---- C08
+SS = "src/sentence.rs"
+m("c08-fill-le-6", SS, "|val| *val < 6", "|val| *val <= 6", ["C08"])
+m("c08-hex-fff", SS, "val <= &0xff", "val <= &0xfff", ["C08"])
+m("c08-hash-start", SS, 'alt((tag("!"), tag("$")))', 'alt((tag("!"), tag("$"), tag("#")))', ["C08"])
+m("c08-report-2-bytes", SS, "map(take(3u8), Into::into)(data)?;", "map(take(2u8), Into::into)(data)?;", ["C08"])
+m("c08-tagblock-mandatory", SS, 'opt(delimited(tag("\\\\"), take_until("\\\\"), tag("\\\\")))(data)?;', 'delimited(tag("\\\\"), take_until("\\\\"), tag("\\\\"))(data)?;', ["C08"])
+m("c08-id-mandatory", SS, "let (data, message_id) = opt(parse_u8_digit)(data)?;", "let (data, message_id) = map(parse_u8_digit, Some)(data)?;", ["C08"])
+n("n-c08-fill-le-5", SS, "|val| *val < 6", "|val| *val <= 5", ["C08"])
 # ---- neutral edits
 n("n-t16-gt-51", S + "assignment_mode_command.rs", "if remaining_bits >= 52 {", "if remaining_bits > 51 {", ["C04", "C14"])
 n("n-t12-error-kind", S + "addressed_safety_related.rs", "nom::error::ErrorKind::Eof,", "nom::error::ErrorKind::Digit,", ["C04", "C14", "C09"])
